@@ -8,6 +8,9 @@
 #include <mantis-cipher.h>   /* public header (angle form: the quoted form would find this file): MantisCells_t, MantisKey_t */
 
 static uint8_t VGM_K0[16], VGM_K0P[16], VGM_K1[16], VGM_K1A[16];
+/* ghost call log of mantis_set_key (used by the wrappers that delegate to it) */
+static const void *VGM_SK_KS, *VGM_SK_KEY; static unsigned VGM_SK_SIZE, VGM_SK_ROUNDS, VGM_SK_N; static int VGM_SK_MODE;
+#define VGM_SK_LOG VGM_SK_KS, VGM_SK_KEY, VGM_SK_SIZE, VGM_SK_ROUNDS, VGM_SK_N, VGM_SK_MODE
 
 #define VM_LOAD_BLOCK(g, p) (g)[0] = VHI(VU8(p)[0]); (g)[1] = VLO(VU8(p)[0]); (g)[2] = VHI(VU8(p)[1]); (g)[3] = VLO(VU8(p)[1]); (g)[4] = VHI(VU8(p)[2]); (g)[5] = VLO(VU8(p)[2]); (g)[6] = VHI(VU8(p)[3]); (g)[7] = VLO(VU8(p)[3]); (g)[8] = VHI(VU8(p)[4]); (g)[9] = VLO(VU8(p)[4]); (g)[10] = VHI(VU8(p)[5]); (g)[11] = VLO(VU8(p)[5]); (g)[12] = VHI(VU8(p)[6]); (g)[13] = VLO(VU8(p)[6]); (g)[14] = VHI(VU8(p)[7]); (g)[15] = VLO(VU8(p)[7]);
 #define VM_LOAD_CELLS(g, mc) (g)[0] = VCELL16((mc).row[0], 0); (g)[1] = VCELL16((mc).row[0], 1); (g)[2] = VCELL16((mc).row[0], 2); (g)[3] = VCELL16((mc).row[0], 3); (g)[4] = VCELL16((mc).row[1], 0); (g)[5] = VCELL16((mc).row[1], 1); (g)[6] = VCELL16((mc).row[1], 2); (g)[7] = VCELL16((mc).row[1], 3); (g)[8] = VCELL16((mc).row[2], 0); (g)[9] = VCELL16((mc).row[2], 1); (g)[10] = VCELL16((mc).row[2], 2); (g)[11] = VCELL16((mc).row[2], 3); (g)[12] = VCELL16((mc).row[3], 0); (g)[13] = VCELL16((mc).row[3], 1); (g)[14] = VCELL16((mc).row[3], 2); (g)[15] = VCELL16((mc).row[3], 3);
@@ -96,7 +99,10 @@ static uint8_t VGM_K0[16], VGM_K0P[16], VGM_K1[16], VGM_K1A[16];
 #define VC_mantis_set_key \
     __CPROVER_requires(ks == NULL || __CPROVER_is_fresh(ks, sizeof(MantisKey_t))) \
     __CPROVER_requires(key == NULL || __CPROVER_is_fresh(key, (size <= 32) ? size : 32)) \
-    __CPROVER_assigns(VM_SETKEY_OK: __CPROVER_object_whole(ks)) \
+    __CPROVER_assigns(VM_SETKEY_OK: __CPROVER_object_upto((void *)ks, sizeof(MantisKey_t))) \
+    __CPROVER_assigns(VGM_SK_LOG) \
+    __CPROVER_ensures(VGM_SK_N == __CPROVER_old(VGM_SK_N) + 1 && VGM_SK_KS == (const void *)ks && VGM_SK_KEY == key && \
+                      VGM_SK_SIZE == size && VGM_SK_ROUNDS == rounds && VGM_SK_MODE == mode) \
     __CPROVER_ensures(__CPROVER_return_value == (VM_SETKEY_OK ? 1 : 0)) \
     __CPROVER_ensures(__CPROVER_return_value == 1 ==> (ks->rounds == rounds && VM_BLOCK_IS_ZERO(ks->tweak))) \
     __CPROVER_ensures((__CPROVER_return_value == 1 && mode == MANTIS_ENCRYPT) ==> \
@@ -106,10 +112,12 @@ static uint8_t VGM_K0[16], VGM_K0P[16], VGM_K1[16], VGM_K1A[16];
 
 /* ---- mantis_set_tweak: 8 bytes only; NULL = zero tweak; nothing else changes ---- */
 #define VM_SETTWEAK_OK (ks != NULL && size == 8)
+#define VE_mantis_set_key \
+    VGM_SK_N = VGM_SK_N + 1; VGM_SK_KS = ks; VGM_SK_KEY = key; VGM_SK_SIZE = size; VGM_SK_ROUNDS = rounds; VGM_SK_MODE = mode;
 #define VC_mantis_set_tweak \
     __CPROVER_requires(ks == NULL || __CPROVER_is_fresh(ks, sizeof(MantisKey_t))) \
     __CPROVER_requires(tweak == NULL || __CPROVER_is_fresh(tweak, 8)) \
-    __CPROVER_assigns(VM_SETTWEAK_OK: __CPROVER_object_whole(&ks->tweak)) \
+    __CPROVER_assigns(VM_SETTWEAK_OK: __CPROVER_object_upto((void *)&ks->tweak, sizeof(ks->tweak))) \
     __CPROVER_ensures(__CPROVER_return_value == (VM_SETTWEAK_OK ? 1 : 0)) \
     __CPROVER_ensures((__CPROVER_return_value == 1 && tweak != NULL) ==> VM_BLOCK_IS_BYTES(ks->tweak, tweak, 0)) \
     __CPROVER_ensures((__CPROVER_return_value == 1 && tweak == NULL) ==> VM_BLOCK_IS_ZERO(ks->tweak))
@@ -118,7 +126,7 @@ static uint8_t VGM_K0[16], VGM_K0P[16], VGM_K1[16], VGM_K1A[16];
 static MantisCells_t VGM_OK0, VGM_OK0P, VGM_OK1;
 #define VC_mantis_swap_modes \
     __CPROVER_requires(__CPROVER_is_fresh(ks, sizeof(MantisKey_t))) \
-    __CPROVER_assigns(__CPROVER_object_whole(&ks->k0), __CPROVER_object_whole(&ks->k0prime), __CPROVER_object_whole(&ks->k1), \
+    __CPROVER_assigns(__CPROVER_object_upto((void *)&ks->k0, sizeof(ks->k0)), __CPROVER_object_upto((void *)&ks->k0prime, sizeof(ks->k0prime)), __CPROVER_object_upto((void *)&ks->k1, sizeof(ks->k1)), \
                       __CPROVER_object_whole(&VGM_OK0), __CPROVER_object_whole(&VGM_OK0P), __CPROVER_object_whole(&VGM_OK1)) \
     __CPROVER_ensures(ks->k0.llrow == VGM_OK0P.llrow && ks->k0prime.llrow == VGM_OK0.llrow) \
     __CPROVER_ensures(ks->k1.row[0] == (uint16_t)(VGM_OK1.row[0] ^ VPACK16(SPEC_MALPHA, 0)) && \
